@@ -3,6 +3,7 @@ C12 — proofs, arc-corrected data in exact arithmetic: `get_bin (get_LOR b) = b
 "view ≥ V ⇒ subtract V and negate the tangential position" wrap rule; uniform tangential sampling.
 -/
 import StirVerif.C12.Model
+import StirVerif.C12.ProofsTof
 import Mathlib.Tactic.Ring
 import Mathlib.Tactic.Linarith
 import Mathlib.Tactic.FieldSimp
@@ -58,14 +59,31 @@ structure ArcGeom.WF (g : ArcGeom) : Prop where
   hzero : ∀ sg, g.seg? 0 = some sg → sg.minRD ≤ 0 ∧ 0 ≤ sg.maxRD
   hne : ∀ s sg, g.seg? s = some sg → sg.minRD ≤ sg.maxRD
   hord : ∀ s s' a b, g.seg? s = some a → g.seg? s' = some b → s < s' → a.maxRD < b.minRD
+  htof : ∀ T, g.tof = some T → 0 < T.inc ∧ T.numBins.tmod 2 ≠ 0
 
-/-- the bin is one of the data set (TOF bin 0: arc-corrected `get_bin` does not handle TOF) -/
+/-- the TOF position is one of the data set (0 for non-TOF data) -/
+def ArcGeom.TofInRange (g : ArcGeom) (t : Int) : Prop := match g.tof with
+  | none => t = 0
+  | some T => T.minPos ≤ t ∧ t ≤ T.maxPos
+
+/-- the bin is one of the data set -/
 structure ArcGeom.InRange (g : ArcGeom) (b : Bin) (sg : Seg) : Prop where
   hseg : g.seg? b.seg = some sg
   hv : 0 ≤ b.view ∧ b.view < g.V
   ha : 0 ≤ b.ax ∧ b.ax ≤ sg.numAx - 1
   ht : g.minTang ≤ b.tang ∧ b.tang ≤ g.maxTang
-  htof : b.tof = 0
+  htof : g.TofInRange b.tof
+
+/-- `get_tof_bin (get_tof_delta_time b) = b.tof` -/
+theorem ArcGeom.tofBin_deltaTime (g : ArcGeom) (w : g.WF) (t : Int) (h : g.TofInRange t) : g.tofBin (g.deltaTime t) = t := by
+  unfold ArcGeom.tofBin ArcGeom.deltaTime
+  unfold ArcGeom.TofInRange at h
+  cases hT : g.tof with
+  | none => rw [hT] at h; simp only []; exact h.symm
+  | some T =>
+    rw [hT] at h
+    simp only []
+    exact getTofBin_centre T (w.htof T hT).1 (w.htof T hT).2 t h
 
 theorem ArcGeom.seg?_isSome (g : ArcGeom) (s : Int) (h1 : g.minSeg ≤ s) (h2 : s ≤ g.maxSeg) : ∃ sg, g.seg? s = some sg := by
   unfold ArcGeom.seg? segAt
@@ -197,12 +215,13 @@ theorem segment_found (g : ArcGeom) (w : g.WF) (k : Int) (sg : Seg) (hk : g.seg?
 /-! ### the round trip -/
 
 /-- `get_bin` on a LOR given by its fields -/
-theorem getBin_of_fields (g : ArcGeom) (w : g.WF) (b : Bin) (sg : Seg) (r : g.InRange b sg) (l : LorS)
+theorem getBin_of_fields (g : ArcGeom) (w : g.WF) (b : Bin) (sg : Seg) (r : g.InRange b sg) (l : LorS) (delta : Rat)
+    (htb : g.tofBin delta = b.tof)
     (hview : roundRat (to02 (l.phi - g.offset) / (1 / (g.V : Rat))) = (if l.swapped then b.view + g.V else b.view))
     (hs : l.s = (if l.swapped then -((b.tang : Rat) * g.binSize) else (b.tang : Rat) * g.binSize))
     (hz : (if l.swapped then l.z1 - l.z2 else l.z2 - l.z1) = sg.avgRD * g.spacing)
     (hm : (l.z2 + l.z1) / 2 = sg.getM g.spacing b.ax) :
-    g.getBin l = some b := by
+    g.getBin l delta = some b := by
   have hVq : (0 : Rat) < (g.V : Rat) := by exact_mod_cast w.hV
   have hVp := w.hV
   have hv := r.hv
@@ -270,17 +289,20 @@ theorem getBin_of_fields (g : ArcGeom) (w : g.WF) (b : Bin) (sg : Seg) (r : g.In
     have : (b.ax : Rat) * sg.axialSampling g.spacing - sg.mOffset g.spacing - (((0 : Int) : Rat) * sg.axialSampling g.spacing - sg.mOffset g.spacing)
         = (b.ax : Rat) * sg.axialSampling g.spacing := by push_cast; ring
     rw [this, mul_div_assoc, div_self (ne_of_gt hsamp), mul_one]
-  rw [hax, roundRat_int, if_neg (by omega)]
-  have := r.htof
+  rw [hax, roundRat_int, if_neg (by omega), htb]
+  have hsign : (l.swapped != decide ((if l.swapped then b.view + g.V else b.view) > g.V - 1)) = false := by
+    cases l.swapped <;> simp <;> omega
+  rw [hsign]
   cases b
-  simp only [Bin.mk.injEq, Option.some.injEq] at *
-  simp [this]
+  simp
 
-/-- **arc-corrected round trip, exact arithmetic**: for every bin of the data (TOF bin 0), `get_bin (get_LOR b) = b`;
+/-- **arc-corrected round trip, exact arithmetic**: for every bin of the data (every TOF bin),
+    `get_bin (get_LOR b, get_tof_delta_time b) = b`;
     this covers both representations of the LOR — `φ` in `[0,π)` and, when the azimuthal offset makes `φ(v)` leave
     that range, the flipped one that `get_bin` undoes by "view ≥ V ⇒ subtract V and negate the tangential position". -/
 theorem arccorr_roundtrip (g : ArcGeom) (w : g.WF) (b : Bin) (sg : Seg) (r : g.InRange b sg) (l : LorS)
-    (hl : g.lorOf b = some l) : g.getBin l = some b := by
+    (hl : g.lorOf b = some l) : g.getBin l (g.deltaTime b.tof) = some b := by
+  have htb := g.tofBin_deltaTime w b.tof r.htof
   have hVq : (0 : Rat) < (g.V : Rat) := by exact_mod_cast w.hV
   have hv := r.hv
   have hv0 : (0 : Rat) ≤ (b.view : Rat) / (g.V : Rat) := div_nonneg (by exact_mod_cast hv.1) (le_of_lt hVq)
@@ -296,7 +318,7 @@ theorem arccorr_roundtrip (g : ArcGeom) (w : g.WF) (b : Bin) (sg : Seg) (r : g.I
   · -- flipped representation
     rename_i hflip
     subst hl
-    apply getBin_of_fields g w b sg r
+    apply getBin_of_fields g w b sg r _ _ htb
     · simp only [Bool.not_false, if_true]
       have : to02 (to02 ((b.view : Rat) / (g.V : Rat) + g.offset) - 1 - g.offset) = (b.view : Rat) / (g.V : Rat) + 1 := by
         apply to02_of _ _ (-k - 1)
@@ -312,7 +334,7 @@ theorem arccorr_roundtrip (g : ArcGeom) (w : g.WF) (b : Bin) (sg : Seg) (r : g.I
     · simp only []; ring
   · rename_i hnoflip
     subst hl
-    apply getBin_of_fields g w b sg r
+    apply getBin_of_fields g w b sg r _ _ htb
     · simp only [Bool.false_eq_true, if_false]
       have : to02 (to02 ((b.view : Rat) / (g.V : Rat) + g.offset) - g.offset) = (b.view : Rat) / (g.V : Rat) := by
         apply to02_of _ _ (-k)
